@@ -1,20 +1,24 @@
     // ---- ghost state of the buffer layer (DESIGN.md §3 "iterator abstract state") ----
     /// representation invariant
-    spec fn wf(&self) -> bool {
+    pub closed spec fn wf(&self) -> bool {
         &&& self.internal_buffer_position <= self.buffered_byte_length <= self.buffer@.len()
         &&& self.buffer@.len() <= 0x1000_0000_0000_0000
         &&& sp_off(self.buffer_offset) + self.buffered_byte_length == self.source.consumed()
         &&& self.source.consumed() + self.source.remaining().len() <= usize::MAX
     }
     /// absolute stream offset of the parse cursor
-    spec fn cursor(&self) -> int { sp_off(self.buffer_offset) + self.internal_buffer_position }
+    pub closed spec fn cursor(&self) -> int { sp_off(self.buffer_offset) + self.internal_buffer_position }
     /// buffered-but-unconsumed bytes ++ bytes the source has yet to deliver
-    spec fn future(&self) -> Seq<u8> {
+    pub closed spec fn future(&self) -> Seq<u8> {
         self.buffer@.subrange(self.internal_buffer_position as int, self.buffered_byte_length as int) + self.source.remaining()
     }
     /// the valid (actually read) bytes after the cursor
-    spec fn avail(&self) -> Seq<u8> { self.buffer@.subrange(self.internal_buffer_position as int, self.buffered_byte_length as int) }
+    pub closed spec fn avail(&self) -> Seq<u8> { self.buffer@.subrange(self.internal_buffer_position as int, self.buffered_byte_length as int) }
     /// fields the buffer layer never touches
-    spec fn frame(&self, o: &Self) -> bool {
+    pub closed spec fn frame(&self, o: &Self) -> bool {
         self.allowed_errors == o.allowed_errors && self.max_allowed_tag_size == o.max_allowed_tag_size && self.tag_stack == o.tag_stack && self.has_determined_doc_path == o.has_determined_doc_path
     }
+    /// configuration (tolerance mask, size limit)
+    pub closed spec fn cfg(&self) -> (u8, Option<usize>) { (self.allowed_errors, self.max_allowed_tag_size) }
+    /// number of source reads that returned Ok(0) so far
+    pub closed spec fn zr(&self) -> nat { self.source.zero_reads() }
